@@ -38,6 +38,7 @@ fn viol(ctx: &mut Ctx, class: &str, entry: &str, text: &[u8], msg: String) {
 fn ok_or(ctx: &mut Ctx, entry: &str, text: &[u8], r: Result<Result<(), String>, String>) {
     ctx.state();
     ctx.call();
+    ctx.tr(|t| t.bytes(&[matches!(r, Ok(Ok(()))) as u8]));
     match r {
         Ok(Ok(())) => ctx.outcome("equal"),
         Ok(Err(m)) => viol(ctx, "tree-mismatch", entry, text, m),
